@@ -87,6 +87,7 @@ def run(tier, seed, rep):
                           dict(definition=d, event=ev, tlc=text, files={"def.rs": files.get(d["id"], "") if d else ""}))
         for name, res, consts in mc.result():
             rep.add_model(name, res, consts)
+    evs = [e for e in evs if e.get("op") != "panic"]      # PANIC_FILTER: statistics only (panic events were judged by TLC above)
     calls = [e for e in evs if e["op"] in ("it", "itobs")]
     rep.cov["programs"] = 2 * len(defs)
     rep.cov["evaluations"] = len(calls)
